@@ -50,6 +50,9 @@ LEAVES = [
     {"k": "lit", "v": [1, "a"]}, {"k": "lit", "v": [None]}, {"k": "lit", "v": [True]},
     {"k": "enum", "e": "Num"}, {"k": "enum", "e": "Color"}, {"k": "enum", "e": "Plain"},
     {"k": "data", "d": D_SCHEMA}, {"k": "data", "d": D_DC},
+    # rules whose only check is `contains` (no keyword constraint, no item type): a value of their origin type is NOT yet a value of the rule
+    {"k": "con", "o": "list", "c": {}, "contains": {"k": "leaf", "o": "int"}, "m": "class"},
+    {"k": "con", "o": "list", "c": {}, "contains": {"k": "con", "o": "int", "c": {"gt": 0}}, "min_contains": 2, "m": "annotate"},
 ]
 COMB = {"union": "|", "xor": "^", "and": "&", "not": "~"}
 OPF = {"union": operator.or_, "xor": operator.xor, "and": operator.and_}
